@@ -129,6 +129,8 @@ def evaluator(p, res, meta):
             return None        # a panic before any error is not this property's subject
         if a.startswith("err") and k in ("c", "}alter", "alter{"):
             seen_err = True
+        if a == "skipped":
+            continue            # the body of a session that could not be opened is not executed
         if not in_session:
             bs1 = asmgen.parse_emit(ws)
             if bs1 is not None:
@@ -181,7 +183,7 @@ def check(run):
         return
     found_before = len(run.violations) + len(run.known_hit)
     progs, metas = [], []
-    for _ in range(8000 if thorough else 2500):
+    for _ in range(40000 if thorough else 2500):
         lines, meta = fault_program(rng, rng.choice(["x64", "x86", "a64", "rv"]))
         progs.append(lines)
         metas.append(meta)
